@@ -33,10 +33,13 @@ TRecv == /\ Is("recv") /\ Adv /\ UNCHANGED oks
                  /\ oks[Len(recvs) + 1] = <<Ev.len, Ev.h>>
                  /\ recvs' = Append(recvs, <<Ev.len, Ev.h>>)
 
+\* the messages the application kept still read as they did when returned
+TKept == /\ Is("kept") /\ Adv /\ UNCHANGED <<oks, recvs>> /\ Ev.bad = 0
+
 TEnd == /\ Is("end") /\ Adv /\ UNCHANGED <<oks, recvs>>
         /\ Ev.quiet = 1 => Len(recvs) = Len(oks)
 
-TraceNext == TNew \/ TSend \/ TRecv \/ TEnd
+TraceNext == TNew \/ TSend \/ TRecv \/ TKept \/ TEnd
 TraceSpec == l = 1 /\ oks = <<>> /\ recvs = <<>> /\ [][TraceNext]_<<l, oks, recvs>>
 TraceAccepted ==
     LET d == TLCGet("stats").diameter IN
